@@ -1259,10 +1259,11 @@ impl QueryPlan {
                     QueryPlan::compile_expr(lhs, filter, columns, column_len, planner)?;
                 let (plan_rhs, type_rhs) =
                     QueryPlan::compile_expr(rhs, filter, columns, column_len, planner)?;
+                // `NULL AND x` is never true: the result is the NULL operand (unlike OR, where it is the other operand)
                 if type_lhs.decoded == BasicType::Null {
-                    return Ok((plan_rhs, type_rhs));
-                } else if type_rhs.decoded == BasicType::Null {
                     return Ok((plan_lhs, type_lhs));
+                } else if type_rhs.decoded == BasicType::Null {
+                    return Ok((plan_rhs, type_rhs));
                 }
                 if type_lhs.decoded != BasicType::Boolean || type_rhs.decoded != BasicType::Boolean
                 {
